@@ -9,7 +9,9 @@
   C undefined behaviour is tracked in `St.ub`:
     * `x << shift` with `shift ≥ width`                       (never happens while 7·(max−1) < width);
     * `(T)1 << shift` with `shift = width−1` for signed `T`   (1 is shifted into the sign bit and the result
-      negated: signed overflow) — this DOES happen in `leb128ReadI64` for 9-byte encodings whose sign bit is set.
+      negated: signed overflow) — with the sign-extension form `-((T)1 << shift)` this happens in a 64-bit
+      decoder for 9-byte encodings whose sign bit is set (the defect fixed by /repo 415f201; `leb128ReadI32`
+      still uses that form, harmlessly: its largest guarded shift is 28).
   The value computed in that case is the one gcc/clang produce (two's complement wrap-around).
 -/
 import W2c2Verif.Gen.Reader
@@ -47,11 +49,18 @@ def loop (d : LebDecoder) : Nat → Bytes → St → St × Bytes
   | n + 1, b :: bs, s =>
     if b.toNat &&& d.contMask = 0 then (step d s b, bs) else loop d n bs (step d s b)
 
-/-- `if ((shift < 8 * sizeof(T)) && (byte & 0x40)) value |= -((T) 1 << shift);` (signed decoders only). -/
+/-- `if ((shift < 8 * sizeof(T)) && (byte & 0x40)) value |= <sign bits>;` (signed decoders only).  The source
+    writes the sign bits in one of two ways (`LebDecoder.signExtForm`, regenerated):
+      * `-((T) 1 << shift)`        — a signed shift and a negation: undefined for `shift = width − 1`;
+      * `(T) (~(UT) 0 << shift)`   — an unsigned shift (defined for every `shift < width`) converted to `T`. -/
 def signExtend (d : LebDecoder) (s : St) : St :=
   if d.signed = true ∧ s.shift < d.guardBits ∧ s.byte &&& d.signMask ≠ 0 then
-    { s with value := s.value ||| ((2 ^ d.width - (1 <<< s.shift) % 2 ^ d.width) % 2 ^ d.width)
-             ub := s.ub || decide (d.width ≤ s.shift + 1) }
+    if d.signExtForm = "unsignedMask" then
+      { s with value := s.value ||| (((2 ^ d.width - 1) <<< s.shift) % 2 ^ d.width)
+               ub := s.ub || decide (d.width ≤ s.shift) }
+    else
+      { s with value := s.value ||| ((2 ^ d.width - (1 <<< s.shift) % 2 ^ d.width) % 2 ^ d.width)
+               ub := s.ub || decide (d.width ≤ s.shift + 1) }
   else s
 
 /-- One call of the decoder on the buffer `bs`: final locals and the advanced buffer. -/
